@@ -16,39 +16,145 @@ require (
 )
 
 require (
+	cyphar.com/go-pathrs v0.2.1
+	github.com/Microsoft/go-winio v0.6.2
+	github.com/Microsoft/hcsshim v0.14.1
 	github.com/beorn7/perks v1.0.1 // indirect
+	github.com/bmatcuk/doublestar/v4 v4.10.0
 	github.com/cespare/xxhash/v2 v2.3.0 // indirect
-	github.com/containerd/errdefs v1.0.0 // indirect
+	github.com/cilium/ebpf v0.22.0
+	github.com/containerd/cgroups/v3 v3.1.2
+	github.com/containerd/console v1.0.5
+	github.com/containerd/containerd/api v1.10.0
+	github.com/containerd/continuity v0.4.5
+	github.com/containerd/errdefs v1.0.0
+	github.com/containerd/errdefs/pkg v0.3.0
+	github.com/containerd/fifo v1.1.0
+	github.com/containerd/go-cni v1.1.13
+	github.com/containerd/go-runc v1.1.0
 	github.com/containerd/log v0.1.0 // indirect
 	github.com/containerd/platforms v1.0.0-rc.4 // indirect
+	github.com/containerd/plugin v1.0.0
+	github.com/containerd/stargz-snapshotter/ipfs v0.18.2
+	github.com/containerd/ttrpc v1.2.7
 	github.com/containerd/typeurl/v2 v2.2.3 // indirect
+	github.com/containernetworking/cni v1.3.0
+	github.com/containernetworking/plugins v1.9.0
+	github.com/coreos/go-systemd/v22 v22.7.0
+	github.com/cpuguy83/go-md2man/v2 v2.0.7
+	github.com/cyphar/filepath-securejoin v0.6.0
+	github.com/davecgh/go-spew v1.1.2-0.20180830191138-d8f796af33cc
 	github.com/distribution/reference v0.6.0 // indirect
+	github.com/docker/cli v29.4.3+incompatible
+	github.com/docker/docker-credential-helpers v0.9.3
+	github.com/docker/go-metrics v0.0.1
+	github.com/docker/go-units v0.5.0
+	github.com/emicklei/go-restful/v3 v3.13.0
 	github.com/felixge/httpsnoop v1.0.4 // indirect
+	github.com/fsnotify/fsnotify v1.9.0
+	github.com/fxamacker/cbor/v2 v2.9.0
 	github.com/go-logr/logr v1.4.3 // indirect
 	github.com/go-logr/stdr v1.2.2 // indirect
+	github.com/go-openapi/jsonpointer v0.21.0
+	github.com/go-openapi/jsonreference v0.20.2
+	github.com/go-openapi/swag v0.23.0
 	github.com/goccy/go-json v0.10.6 // indirect
+	github.com/godbus/dbus/v5 v5.1.0
 	github.com/gogo/protobuf v1.3.2 // indirect
 	github.com/golang/groupcache v0.0.0-20241129210726-2c02b8208cf8 // indirect
+	github.com/google/gnostic-models v0.7.0
+	github.com/google/go-cmp v0.7.0
+	github.com/google/uuid v1.6.0
 	github.com/hashicorp/go-cleanhttp v0.5.2 // indirect
 	github.com/hashicorp/go-retryablehttp v0.7.8 // indirect
-	github.com/klauspost/compress v1.18.6 // indirect
+	github.com/intel/goresctrl v0.10.0
+	github.com/ipfs/go-cid v0.1.0
+	github.com/josharian/intern v1.0.0
+	github.com/json-iterator/go v1.1.12
+	github.com/klauspost/compress v1.18.6
+	github.com/klauspost/cpuid/v2 v2.2.6
+	github.com/mailru/easyjson v0.7.7
+	github.com/mdlayher/socket v0.5.1
+	github.com/mdlayher/vsock v1.2.1
+	github.com/minio/sha256-simd v1.0.1
+	github.com/mitchellh/go-homedir v1.1.0
 	github.com/moby/locker v1.0.1 // indirect
+	github.com/moby/sys/capability v0.4.0
+	github.com/moby/sys/mountinfo v0.7.2
+	github.com/moby/sys/sequential v0.6.0
+	github.com/moby/sys/signal v0.7.1
+	github.com/moby/sys/symlink v0.3.0
+	github.com/moby/sys/user v0.4.0
+	github.com/moby/sys/userns v0.1.0
+	github.com/modern-go/concurrent v0.0.0-20180306012644-bacd9c7ef1dd
+	github.com/modern-go/reflect2 v1.0.3-0.20250322232337-35a7c28c31ee
+	github.com/mr-tron/base58 v1.2.0
+	github.com/multiformats/go-base32 v0.1.0
+	github.com/multiformats/go-base36 v0.2.0
+	github.com/multiformats/go-multiaddr v0.16.1
+	github.com/multiformats/go-multibase v0.2.0
+	github.com/multiformats/go-multihash v0.2.3
+	github.com/multiformats/go-varint v0.0.7
 	github.com/munnerz/goautoneg v0.0.0-20191010083416-a7dc8b61c822 // indirect
+	github.com/opencontainers/runtime-spec v1.3.0
+	github.com/opencontainers/runtime-tools v0.9.1-0.20251114084447-edf4cb3d2116
+	github.com/opencontainers/selinux v1.13.1
+	github.com/pelletier/go-toml v1.9.5
+	github.com/pelletier/go-toml/v2 v2.2.4
+	github.com/petermattis/goid v0.0.0-20240813172612-4fcff4a6cae7
+	github.com/pkg/errors v0.9.1
+	github.com/pmezard/go-difflib v1.0.1-0.20181226105442-5d4384ee4fb2
 	github.com/prometheus/client_golang v1.23.2 // indirect
 	github.com/prometheus/client_model v0.6.2 // indirect
 	github.com/prometheus/common v0.66.1 // indirect
 	github.com/prometheus/procfs v0.16.1 // indirect
 	github.com/rs/xid v1.6.0 // indirect
+	github.com/russross/blackfriday/v2 v2.1.0
+	github.com/sasha-s/go-deadlock v0.3.5
+	github.com/spaolacci/murmur3 v1.1.0
+	github.com/spf13/pflag v1.0.10
+	github.com/urfave/cli/v2 v2.27.7
 	github.com/vbatts/tar-split v0.12.2 // indirect
+	github.com/x448/float16 v0.8.4
+	github.com/xrash/smetrics v0.0.0-20240521201337-686a1a2994c1
+	go.opencensus.io v0.24.0
 	go.opentelemetry.io/auto/sdk v1.2.1 // indirect
 	go.opentelemetry.io/contrib/instrumentation/net/http/otelhttp v0.60.0 // indirect
 	go.opentelemetry.io/otel v1.43.0 // indirect
 	go.opentelemetry.io/otel/metric v1.43.0 // indirect
 	go.opentelemetry.io/otel/trace v1.43.0 // indirect
 	go.yaml.in/yaml/v2 v2.4.3 // indirect
+	go.yaml.in/yaml/v3 v3.0.4
+	golang.org/x/crypto v0.52.0
+	golang.org/x/exp v0.0.0-20241108190413-2d47ceb2692f
+	golang.org/x/mod v0.35.0
+	golang.org/x/net v0.55.0
+	golang.org/x/oauth2 v0.36.0
 	golang.org/x/sync v0.20.0 // indirect
 	golang.org/x/sys v0.45.0 // indirect
+	golang.org/x/term v0.43.0
+	golang.org/x/text v0.37.0
+	golang.org/x/time v0.14.0
+	google.golang.org/genproto/googleapis/rpc v0.0.0-20260414002931-afd174a4e478
+	google.golang.org/grpc v1.82.1
 	google.golang.org/protobuf v1.36.11 // indirect
+	gopkg.in/evanphx/json-patch.v4 v4.13.0
+	gopkg.in/inf.v0 v0.9.1
+	gopkg.in/yaml.v3 v3.0.1
+	k8s.io/api v0.35.3
+	k8s.io/apimachinery v0.35.3
+	k8s.io/client-go v0.35.3
+	k8s.io/cri-api v0.35.3
+	k8s.io/klog/v2 v2.130.1
+	k8s.io/kube-openapi v0.0.0-20250910181357-589584f1c912
+	k8s.io/utils v0.0.0-20251002143259-bc988d571ff4
+	lukechampine.com/blake3 v1.2.1
+	sigs.k8s.io/json v0.0.0-20250730193827-2d320260d730
+	sigs.k8s.io/randfill v1.0.0
+	sigs.k8s.io/structured-merge-diff/v6 v6.3.0
+	sigs.k8s.io/yaml v1.6.0
+	tags.cncf.io/container-device-interface v1.1.0
+	tags.cncf.io/container-device-interface/specs-go v1.1.0
 )
 
 replace github.com/containerd/stargz-snapshotter => /repo
